@@ -164,9 +164,23 @@ def coq_op(req, sizes):
 
 # ---------------------------------------------------------------- transform
 def edit_transform(rng, req):
-    choice = rng.choice(["periodic", "non-monotonic-bins", "no-outer"])
+    choice = rng.choice(["periodic", "non-monotonic-bins", "no-outer", "dim-doubled", "dim-removed"])
     if choice == "periodic":
         req["periodic"] = True
+    elif choice == "dim-doubled":
+        # the data carries both the centre and the outer dimension of the axis
+        req["has_outer"] = True
+        req["dims"] = req["dims"] + [["zo", req["N"] + 1]]
+        size = 1
+        for _, l in req["dims"]:
+            size *= l
+        req["da_vals"] = [(5 * i + 2) % 13 for i in range(size)]
+    elif choice == "dim-removed":
+        req["dims"] = [d for d in req["dims"] if d[0] != "zc"]
+        size = 1
+        for _, l in req["dims"]:
+            size *= l
+        req["da_vals"] = req["da_vals"][:size]
     elif choice == "non-monotonic-bins":
         req["method"] = "conservative"
         req["has_outer"] = True
